@@ -486,6 +486,18 @@ impl Runner {
                 self.drift_check();
                 (newop, out)
             }
+            b"BCLOSEF" => {
+                // [BCLOSEF c]: the client goes away whatever it is still owed (BCLOSE declines then). Used by the
+                // witness of the open class blocked-hangup-unread-input only; not generated, not modelled
+                let c = tok_int(&op[1]);
+                if !self.settle() { return (op.to_vec(), vec![b("CLOSED")]); }
+                self.drain_all();
+                self.blk.inbox.remove(&c);
+                self.conns.remove(&c);
+                std::thread::sleep(Duration::from_millis(30));
+                if !self.settle() { return (op.to_vec(), vec![b("CLOSED")]); }
+                (op.to_vec(), vec![i(0)])
+            }
             b"BIG" => {
                 // [BIG c t key seed size count]: SET key <size-byte pattern>, then count GETs and a PING in ONE
                 // write; the client starts reading only after 60 ms and then reads everything: the replies
